@@ -1174,6 +1174,12 @@ def r08_16(ctx, rule):
                 ctx.inst(rule, fid, repo.norm(c), False,
                          'this call opens %s and only then serialises and encodes: a value that cannot be serialised / encoded (a lone surrogate in a source string) raises after '
                          'the file was truncated to 0 bytes' % outvar, c)
+            if dotted(c.func) == 'os.open' and c.args and dotted(c.args[0]) == outvar:
+                # low-level open: what os.write is given must be ready-made (a name bound before); whether its result is checked is R08.12
+                n += 1
+                wr = [x for x in calls_in(fn, nested=False) if dotted(x.func) == 'os.write' and len(x.args) == 2]
+                ok = bool(wr) and all(isinstance(x.args[1], ast.Name) for x in wr)
+                ctx.inst(rule, fid, repo.norm(c), ok, 'os.write is handed ready-made bytes' if ok else 'the bytes are produced while the descriptor is open', c)
             if dotted(c.func) in ('open', 'io.open', 'codecs.open') and c.args and dotted(c.args[0]) == outvar:
                 mode = const_val(c.args[1]) if len(c.args) > 1 else next((const_val(k.value) for k in c.keywords if k.arg == 'mode'), 'r')
                 if not (isinstance(mode, str) and any(ch in mode for ch in 'wax+')):
@@ -3058,7 +3064,9 @@ def r18_13(ctx, rule):
         g = CFG(fn)
         rm = [c for c in calls_in(fn, nested=False) if any(isinstance(x, ast.Constant) and x.value == '--remove-section' for a in c.args for x in ast.walk(a))]
         if not rm:
-            raise AnalysisError('%s: --remove-section call not found' % fid)
+            # the driver is taken out some other way (R18.3 judges whether that removes what enable registered)
+            ctx.inst(rule, fid, 'no --remove-section call', True, 'nothing conditional to judge here', fn, nontrivial=False)
+            continue
         for c in rm:
             st = repo.stmt_of(c)
             dep = None
